@@ -4,4 +4,4 @@ Require Import ExtrOcamlBasic.
 From Coq Require Import ZArith.
 From Verif Require Import EVM.Word EVM.Model.
 Extraction Language OCaml.
-Extraction "../oracle/c10/model.ml" call_top i_alu store_view Z.of_N Z.to_N.
+Extraction "../oracle/c10/model.ml" call_top i_alu store_view acct_view Z.of_N Z.to_N.
